@@ -27,7 +27,175 @@ from harness.datapath import (AttributeValidationNote, ClassValidationError, For
                               IterableValidationError, IterableValidationNote, Session, cfg_name, cattrs)
 from harness.realise import Unrepresentable
 
+from harness.datapath import cfg_key  # noqa: E402
+from cattrs.gen import make_dict_structure_fn, make_dict_unstructure_fn, override  # noqa: E402
+
 BaseValidationError = ClassValidationError.__mro__[1]
+
+F_TWO_PHASE = "c05-init-false-faults-lost-behind-init-faults"
+
+
+def cname(cfg):
+    return cfg_name(cfg) + ("/prefer_attrib_converters" if cfg.get("prefer") else "") + (
+        "/include_init_false" if cfg.get("incl") else "")
+
+
+# ------------------------------------------------------------------ converter options that change the class template
+# Two rarely used options select other branches of the detailed class template.  Each is run as a *variant*: the real
+# classes are the ones of the world, the converter carries the option, and the model (and the fault enumeration) see the
+# world through the option -- `view_world`.
+#  prefer : Converter(prefer_attrib_converters=True): an attrs attribute with `converter=` has NO structure handler, the raw
+#           value is handed to the class (`res[alias] = o[key]`): nothing below it can be faulty, but the key can be
+#           missing.  View: such an attribute is an unannotated pass-through attribute (`ty = None`).
+#  incl   : hooks made with `_cattrs_include_init_false=True` (or a per-attribute `override(omit=False)`): init=False
+#           attributes are read from the payload and assigned after instantiation, inside their own try/annotate/collect
+#           block.  View: such an attribute is an ordinary attribute (`init = True`).  The view is exact for fault sets that
+#           do not put, at one class position, faults both before and after instantiation (see `two_phase`).
+
+def lit_typed(t):
+    t = gen.strip_wraps(t) if t is not None else None
+    while t is not None and not isinstance(t, str) and t[0] == "opt":
+        t = gen.strip_wraps(t[1])
+    return t is not None and not isinstance(t, str) and t[0] == "lit"
+
+
+def prefer_affected(w):
+    return [ci for ci, c in enumerate(w["classes"]) if c["kind"] == "attrs" and any(f.get("idconv") for f in c["fields"])]
+
+
+def incl_affected(w):
+    return [ci for ci, c in enumerate(w["classes"])
+            if c["kind"] in ("attrs", "dc") and not c["frozen"] and c.get("recursive") is None
+            and any(not f["init"] for f in c["fields"])]
+
+
+def view_world(w, variant):
+    """-> (world as the option makes the template see it, affected classes) | None when the view would not be exact"""
+    if variant == "prefer":
+        aff = prefer_affected(w)
+        if any(f.get("idconv") and lit_typed(f["ty"]) for ci in aff for f in w["classes"][ci]["fields"]):
+            return None  # a Literal-typed attribute may be a union discriminator: its type must stay visible
+        w2 = dict(w, classes=[dict(c, fields=[dict(f, ty=None) if (ci in aff and f.get("idconv")) else f for f in c["fields"]])
+                              for ci, c in enumerate(w["classes"])])
+    else:
+        aff = incl_affected(w)
+        w2 = dict(w, classes=[dict(c, fields=[dict(f, init=True, was_init_false=True) if (ci in aff and not f["init"]) else f
+                                              for f in c["fields"]])
+                              for ci, c in enumerate(w["classes"])])
+    return (w2, aff) if aff else None
+
+
+class _NoHooks:
+    def __init__(self, e):
+        self.e = e
+
+    def unstructure(self, *a, **k):
+        raise self.e
+
+    structure = unstructure
+
+
+class VariantSession(Session):
+    """the classes and values of a base session, converters carrying the variant's option, the view world for the model"""
+
+    def __init__(self, S, variant, w_view, affected, how):
+        self.drv, self.R, self.base, self.base_world = S.drv, S.R, S, S.world
+        self.world, self.variant, self.affected, self.how = w_view, variant, affected, how
+        self.convs = {}
+
+    def load(self):
+        r = self.drv.ask("WORLD " + terms.world_sx(self.world))
+        if r != "ok":
+            raise RuntimeError("model rejected the view world: " + r)
+
+    def conv(self, cfg):
+        k = cfg_key(cfg)
+        if k in self.convs:
+            return self.convs[k]
+        if self.variant == "prefer":
+            c = cattrs.Converter(detailed_validation=cfg["detailed"], forbid_extra_keys=bool(cfg.get("forbid")),
+                                 prefer_attrib_converters=True)
+        else:
+            c = cattrs.Converter(detailed_validation=cfg["detailed"], forbid_extra_keys=bool(cfg.get("forbid")))
+            try:
+                for ci in self.affected:  # (classes only refer to earlier ones: hooks of nested classes exist when looked up)
+                    cl = self.R.classes[ci]
+                    if self.how[ci] == "flag":
+                        kw = {"_cattrs_include_init_false": True}
+                    else:
+                        kw = {f["name"]: override(omit=False) for f in self.base_world["classes"][ci]["fields"] if not f["init"]}
+                    c.register_unstructure_hook(cl, make_dict_unstructure_fn(cl, c, **kw))
+                    c.register_structure_hook(cl, make_dict_structure_fn(cl, c, **kw))
+            except Exception as e:  # noqa: BLE001  a class of the world has no hooks at all (e.g. an ambiguous union inside)
+                c = _NoHooks(e)
+        self.convs[k] = c
+        return c
+
+
+def node_field(w, ty, path):
+    """the attribute (class#, field) addressed by the LAST segment of `path` when it is an attribute segment"""
+    t = ty
+    out = None
+    for s in path:
+        out = None
+        while t is not None and not isinstance(t, str) and (t[0] == "opt" or t[0] in WRAPS):
+            t = t[1]
+        if t is None or isinstance(t, str):
+            return None
+        if t[0] == "nt":
+            t = nt_as_tup(w, t)
+        if s[0] == "a":
+            if t[0] not in ("cls", "td"):
+                return None
+            f = field_named(w["classes"][t[1]], s[1])
+            if f is None:
+                return None
+            out = (t[1], f)
+            t = f["ty"]
+        elif t[0] == "tup":
+            i = s[1][1] if s[1][0] == "i" else None
+            if i is None or not (0 <= i < len(t[1])):
+                return None
+            t = t[1][i]
+        elif t[0] in MAPS:
+            t = t[2]
+        elif t[0] in SEQ or t[0] in SETS:
+            t = t[1]
+        else:
+            return None
+    return out
+
+
+def two_phase(w_view, ty, faults):
+    """indices of the faults that sit at / below an attribute assigned AFTER instantiation (init=False, included) of a class
+    position that also has a fault reported BEFORE instantiation (an init attribute, a missing key, extra keys)"""
+    phases = {}       # class position -> {1: [...], 2: [...]}
+    for ix, f in enumerate(faults):
+        segs = f["path"]
+        if f["kind"] in ("miss", "extra"):
+            phases.setdefault(tuple(map(repr, segs)), {1: [], 2: []})[1].append(ix)
+        for i, s in enumerate(segs):
+            if s[0] != "a":
+                continue
+            nf = node_field(w_view, ty, segs[: i + 1])
+            if nf is None:
+                continue
+            ph = 2 if nf[1].get("was_init_false") else 1
+            phases.setdefault(tuple(map(repr, segs[:i])), {1: [], 2: []})[ph].append(ix)
+    lost = set()
+    for d in phases.values():
+        if d[1] and d[2]:
+            lost.update(d[2])
+    return sorted(lost)
+
+
+@framework.finding(F_TWO_PHASE)
+def two_phase_pred(case) -> bool:
+    """hooks that include init=False attributes; the ONLY deviation is that exactly the faults at / below init=False
+    attributes of class positions that also have a pre-instantiation fault are not reported"""
+    return (isinstance(case, dict) and (case.get("cfg") or {}).get("incl") is True and case.get("deviation") == "paths"
+            and bool(case.get("lost_paths")) and not case.get("spurious_paths")
+            and sorted(case.get("lost_paths")) == sorted(case.get("two_phase_paths") or []))
 
 CFGS = [
     {"gen": True, "tuple": False, "detailed": True, "forbid": False},
@@ -556,8 +724,10 @@ def run_case(chk, S, w, cfg, ty, p0, faults, corr_fail, case_extra=None):
     if eff is None:
         chk.note("set-fault-not-locatable")
         return False
-    case = {"world": w, "cfg": cfg, "ty": ty, "payload": p0, "faults": faults}
-    label = "[%s %s payload=%s faults=%s]" % (cfg_name(cfg), terms.ty_sx(ty), terms.canon_sx(p0)[:300],
+    case = {"world": getattr(S, "base_world", w), "cfg": cfg, "ty": ty, "payload": p0, "faults": faults}
+    if isinstance(S, VariantSession):
+        case["variant_how"] = {str(k): v for k, v in S.how.items()}
+    label = "[%s %s payload=%s faults=%s]" % (cname(cfg), terms.ty_sx(ty), terms.canon_sx(p0)[:300],
                                              " ".join(fault_sx(f) for f in faults)[:400])
     expected = sorted(render_path(R, report_path(f)) for f in eff)
 
@@ -565,14 +735,24 @@ def run_case(chk, S, w, cfg, ty, p0, faults, corr_fail, case_extra=None):
     r = S.impl_st(cfg, ty, p1, payload=p1v)
     for f in faults:
         chk.note("fault:" + f["what"], "fault-depth:%d" % len(f["path"]))
-    chk.note("faults:%d" % len(faults), "cfg:" + cfg_name(cfg), "ty:" + (ty if isinstance(ty, str) else ty[0]))
+    chk.note("faults:%d" % len(faults), "cfg:" + cname(cfg), "ty:" + (ty if isinstance(ty, str) else ty[0]))
+    if isinstance(S, VariantSession):
+        for f in faults:
+            nf = node_field(S.base_world, ty, report_path(f)) if report_path(f) and report_path(f)[-1][0] == "a" else None
+            if nf is not None and S.variant == "prefer" and nf[1].get("idconv") and f["kind"] == "miss":
+                chk.note("fault:missing-key-of-a-handler-less-attribute")
+            if S.variant == "incl" and any(
+                    (node_field(S.world, ty, f["path"][: i + 1]) or (None, {}))[1].get("was_init_false")
+                    for i, s_ in enumerate(f["path"]) if s_[0] == "a"):
+                chk.note("fault:at-or-below-an-included-init=False-attribute")
     if gen.has_enum_lit(w, ty):
         chk.note("literal-with-enum-members-reachable")
     for t_ in set(t if isinstance(t, str) else t[0] for rt in gen.reach_types(w, ty) for t in gen.walk_types(rt)):
         if t_ in ("nt", "tup", "td", "cls", "union"):
             chk.note("reaches:" + t_)
-    key = cfg_name(cfg) + terms.ty_sx(ty) + terms.canon_sx(p1)
+    key = cname(cfg) + terms.ty_sx(ty) + terms.canon_sx(p1)
     nontrivial = not isinstance(ty, str)
+    tp = two_phase(w, ty, eff) if cfg.get("incl") else []
     if r[0] != "err":
         chk.count(key, nontrivial=nontrivial)
         chk.violation("C05 oracle: %d injected fault(s) but structure() raised nothing %s" % (len(faults), label), case)
@@ -582,7 +762,7 @@ def run_case(chk, S, w, cfg, ty, p0, faults, corr_fail, case_extra=None):
     itree = sh.tree(ty, p1, exc)
     ipaths, terr = impl_paths(exc)
     chk.count(key, nontrivial=nontrivial,
-              sample=({"cfg": cfg_name(cfg), "type": terms.ty_sx(ty), "payload": terms.canon_sx(p1)[:200],
+              sample=({"cfg": cname(cfg), "type": terms.ty_sx(ty), "payload": terms.canon_sx(p1)[:200],
                        "faults": [fault_sx(f) for f in faults], "paths": ipaths} if len(faults) >= 3 else None))
     # ---- oracle (implementation only)
     bad = False
@@ -590,12 +770,27 @@ def run_case(chk, S, w, cfg, ty, p0, faults, corr_fail, case_extra=None):
         bad = chk.violation("C05 oracle: transform_error raised %s %s" % (terr, label), case) or bad
     else:
         if sorted(ipaths) != expected:
-            bad = chk.violation("C05 oracle: reported paths %s != injected fault paths %s %s" % (sorted(ipaths), expected, label), case) or bad
+            rest = list(ipaths)
+            lost = []
+            for e_ in expected:
+                if e_ in rest:
+                    rest.remove(e_)
+                else:
+                    lost.append(e_)
+            facts = {"deviation": "paths", "lost_paths": lost, "spurious_paths": rest,
+                     "two_phase_paths": [render_path(R, report_path(eff[i])) for i in tp]}
+            bad = chk.violation("C05 oracle: reported paths %s != injected fault paths %s %s" % (sorted(ipaths), expected, label),
+                                dict(case, **facts)) or bad
     top_is_leaf_fault = len(faults) == 1 and faults[0]["kind"] == "bad" and not faults[0]["path"]
     if not top_is_leaf_fault and not isinstance(exc, BaseValidationError):
         bad = chk.violation("C05 oracle: raised %s instead of a validation group %s" % (exc.__class__.__name__, label), case) or bad
     if sh.bad:
         bad = chk.violation("C05 oracle: group shape: %s %s" % ("; ".join(sh.bad[:3]), label), case) or bad
+    if tp:
+        # faults on both sides of the instantiation at one class position: outside what the view world models (the recorded
+        # finding about the two reporting phases); the oracle above has judged the case
+        chk.note("scope:two-phase(oracle only)")
+        return True
     # ---- correspondence
     rf = model_faults(S, cfg, ty, p0, faults)
     if rf == "unmodelled" or not rf.startswith("("):
@@ -657,7 +852,7 @@ def valid_payload(chk, S, w, cfg, ty, x, xv, spurious):
         # C05_no_spurious: a fault-free payload raises nothing.  If only the detailed template raises, that is ours.
         rfast = S.impl_st(dict(cfg, detailed=False), ty, p0, payload=u[2])
         if rfast[0] != "err":
-            spurious.append(({"world": w, "cfg": cfg, "ty": ty, "payload": p0, "faults": []}, r[1]))
+            spurious.append(({"world": getattr(S, "base_world", w), "cfg": cfg, "ty": ty, "payload": p0, "faults": []}, r[1]))
         else:
             chk.note("valid-payload-rejected-in-both-modes(skipped)")
         return None
@@ -709,6 +904,12 @@ def worlds(chk, drv, n_worlds):
         for c in w["classes"]:
             for f in c["fields"]:
                 f.pop("bare_final", None)
+            if c["kind"] == "attrs" and chk.rng.random() < 0.4:
+                # attrs attributes with `converter=` (the identity: invisible to a default converter), required ones
+                # included -- under prefer_attrib_converters=True they have no structure handler
+                for f in c["fields"]:
+                    if chk.rng.random() < 0.5 and not lit_typed(f["ty"]):
+                        f["idconv"] = True
         try:
             S = Session(drv, w)
         except Exception:  # noqa: BLE001
@@ -718,6 +919,75 @@ def worlds(chk, drv, n_worlds):
         yield G, S, w
 
 
+def two_phase_witness(chk):
+    """the Lean witness C05_two_phase_witness on the implementation, on every run (implementation only): does the real
+    detailed template still drop the fault of an included init=False attribute behind a fault of an init attribute?"""
+    import attrs
+
+    @attrs.define
+    class W2P:
+        a: int
+        b: int = attrs.field(default=5, init=False)
+
+    out = {}
+    for how, kw in (("flag", {"_cattrs_include_init_false": True}), ("override", {"b": override(omit=False)})):
+        c = cattrs.Converter(detailed_validation=True)
+        c.register_structure_hook(W2P, make_dict_structure_fn(W2P, c, **kw))
+        res = []
+        for payload in ({"a": "q", "b": "q"}, {"a": 1, "b": "q"}, {"a": 1, "b": 2}):
+            try:
+                c.structure(payload, W2P)
+                res.append([])
+            except Exception as e:  # noqa: BLE001
+                res.append(sorted(impl_paths(e)[0] or ["?"]))
+        out[how] = res
+        chk.count("two-phase-witness:" + how, nontrivial=True)
+        if res[1] != ["$.b"] or res[2] != []:
+            chk.violation("C05 oracle: an included init=False attribute: bad value alone reported as %s (expected ['$.b']), valid payload "
+                          "reported as %s [%s]" % (res[1], res[2], how), {"check": "two-phase-witness", "how": how})
+    reproduced = all(r[0] == ["$.a"] for r in out.values())
+    chk.extra["two_phase_witness"] = {"paths": out, "reproduced": reproduced}
+    if not reproduced and any(f.get("signature") == F_TWO_PHASE for f in chk.known):
+        print("NOTE C05: the recorded two-phase finding no longer reproduces on its witness (stale entry?)")
+
+
+def reach_classes(w, ty):
+    out = set()
+    for t in gen.reach_types(w, ty):
+        out.update(gen.type_classes(t))
+    return out
+
+
+def variant_site(V, ty, f):
+    """is the fault site one that only the variant's branch of the class template handles?"""
+    if V.variant == "prefer":
+        if f["kind"] != "miss":
+            return False
+        nf = node_field(V.base_world, ty, report_path(f))
+        return nf is not None and bool(nf[1].get("idconv"))
+    return any((node_field(V.world, ty, f["path"][: i + 1]) or (None, {}))[1].get("was_init_false")
+               for i, s_ in enumerate(f["path"]) if s_[0] == "a")
+
+
+VARIANT_CFGS = {
+    "prefer": [{"gen": True, "tuple": False, "detailed": True, "forbid": False, "prefer": True},
+               {"gen": True, "tuple": False, "detailed": True, "forbid": True, "prefer": True}],
+    "incl": [{"gen": True, "tuple": False, "detailed": True, "forbid": False, "incl": True},
+             {"gen": True, "tuple": False, "detailed": True, "forbid": True, "incl": True}],
+}
+
+
+def views(chk, S, w):
+    """the base session, then one view per converter option that selects another branch of the detailed class template"""
+    yield S, w, CFGS
+    for variant in ("prefer", "incl"):
+        vw = view_world(w, variant)
+        if vw is None:
+            continue
+        how = {ci: chk.rng.choice(["flag", "override"]) for ci in vw[1]} if variant == "incl" else {}
+        yield VariantSession(S, variant, vw[0], vw[1], how), vw[0], VARIANT_CFGS[variant]
+
+
 def run(chk: framework.Check):
     drv = lean.Driver()
     quick = chk.tier == "quick"
@@ -725,38 +995,63 @@ def run(chk: framework.Check):
     corr_fail = []
     spurious = []
     rng = chk.rng
+    two_phase_known = any(f.get("signature") == F_TWO_PHASE for f in chk.known)
+    two_phase_witness(chk)
     for G, S, w in worlds(chk, drv, n_worlds):
-        for ty, x, xv in case_types(chk, G, S, w, 4):
-            for cfg in CFGS:
-                if not gen.supported(cfg, w, ty):
-                    chk.note("unsupported-by-converter-class")
+        cases = list(case_types(chk, G, S, w, 4))
+        for V, wv, cfgs in views(chk, S, w):
+            if V is not S:
+                V.load()
+            for ty, x, xv in cases:
+                if V is not S and not (set(reach_classes(w, ty)) & set(V.affected)):
                     continue
-                if not cfg["gen"] and not class_free(w, ty):
-                    chk.note("baseconverter:class-position(skipped)")
-                    continue
-                p0 = valid_payload(chk, S, w, cfg, ty, x, xv, spurious)
-                if p0 is None:
-                    continue
-                chk.note("no-fault-payload-accepted")
-                all_sites = []
-                sites(rng, w, cfg, ty, p0, [], all_sites)
-                if not all_sites:
-                    chk.note("no-fault-site")
-                    continue
-                for _ in range(2 if quick else 3):
-                    faults = choose_faults(rng, list(all_sites), rng.randint(1, 4))
-                    if faults:
-                        run_case(chk, S, w, cfg, ty, p0, faults, corr_fail)
+                for cfg in cfgs:
+                    if not gen.supported(cfg, w, ty):
+                        chk.note("unsupported-by-converter-class")
+                        continue
+                    if not cfg["gen"] and not class_free(w, ty):
+                        chk.note("baseconverter:class-position(skipped)")
+                        continue
+                    p0 = valid_payload(chk, V, wv, cfg, ty, x, xv, spurious)
+                    if p0 is None:
+                        continue
+                    chk.note("no-fault-payload-accepted")
+                    all_sites = []
+                    sites(rng, wv, cfg, ty, p0, [], all_sites)
+                    if V is not S:
+                        # the variant's own sites first: what the option's branch of the template reads
+                        own = [f for f in all_sites if variant_site(V, ty, f)]
+                        chk.note("variant:%s:%s" % (V.variant, "own-sites" if own else "no-own-site"))
+                    if not all_sites:
+                        chk.note("no-fault-site")
+                        continue
+                    for _ in range(2 if quick else 3):
+                        faults = choose_faults(rng, list(all_sites), rng.randint(1, 4))
+                        if V is not S and own and rng.random() < 0.7:
+                            f0 = rng.choice(own)
+                            faults = [f0] + [f for f in faults if independent(f, [f0])]
+                            faults = [f for i, f in enumerate(faults) if independent(f, faults[:i])]
+                        if cfg.get("incl") and not two_phase_known:
+                            # (until the finding about the two reporting phases is recorded: one phase per class position)
+                            drop = set(two_phase(wv, ty, faults))
+                            faults = [f for i, f in enumerate(faults) if i not in drop]
+                        if faults:
+                            run_case(chk, V, wv, cfg, ty, p0, faults, corr_fail)
     for case, exc in spurious[:3]:
         chk.violation("C05 oracle: a fault-free payload raises with detailed_validation=True only (%s) [%s %s %s]" % (
-            exc.__class__.__name__, cfg_name(case["cfg"]), terms.ty_sx(case["ty"]), terms.canon_sx(case["payload"])[:300]), case)
+            exc.__class__.__name__, cname(case["cfg"]), terms.ty_sx(case["ty"]), terms.canon_sx(case["payload"])[:300]), case)
     oracle_failed = any(v[2] for v in chk.violations)
     for case, op, what in corr_fail[:5]:
         chk.violation("correspondence corr:C05:%s broken (theorems C05_* no longer tied to the code): %s [%s %s faults=%s]" % (
-            op, what, cfg_name(case["cfg"]), terms.ty_sx(case["ty"]), " ".join(fault_sx(f) for f in case["faults"])[:300]),
+            op, what, cname(case["cfg"]), terms.ty_sx(case["ty"]), " ".join(fault_sx(f) for f in case["faults"])[:300]),
             case, found_input=False)
     chk.extra["rule"] = ("random worlds x types (depth<=4) x valid payloads x 1-4 independent injected faults x {Converter, Converter+forbid, "
                          "BaseConverter on class-free types}, detailed validation; non-trivial = non-leaf type; distinct by canonical text")
+    chk.extra["variants"] = ("prefer_attrib_converters=True (attrs attributes with converter= have no structure handler) and hooks with "
+                             "_cattrs_include_init_false / override(omit=False) are run against the same model through a view of the "
+                             "world (handler-less attribute = unannotated pass-through attribute; included init=False attribute = "
+                             "ordinary attribute); fault sets with faults on both sides of the instantiation at one class position "
+                             "are judged by the oracle only")
     chk.extra["correspondence_disagreements"] = len(corr_fail)
     chk.extra["oracle_failed"] = oracle_failed
     drv.close()
@@ -779,8 +1074,15 @@ def replay(case):
         faults.append(f)
     S = Session(drv, case["world"])
     cfg, ty, p0 = case["cfg"], case["ty"], case["payload"]
+    variant = "prefer" if cfg.get("prefer") else "incl" if cfg.get("incl") else None
+    if variant is not None:
+        vw = view_world(case["world"], variant)
+        how = {int(k): v for k, v in (case.get("variant_how") or {}).items()}
+        S = VariantSession(S, variant, vw[0], vw[1], how or {ci: "flag" for ci in vw[1]})
+        S.load()
+        case = dict(case, world=vw[0])
     p1v, p1 = S.realise(inject_py(p0, faults))
-    print("converter:", cfg_name(cfg), "\ntype     :", terms.ty_sx(ty), "\nvalid    :", terms.canon_sx(p0),
+    print("converter:", cname(cfg), "\ntype     :", terms.ty_sx(ty), "\nvalid    :", terms.canon_sx(p0),
           "\nfaults   :", " ".join(fault_sx(f) for f in faults), "\ninjected :", repr(p1v)[:600])
     r = S.impl_st(cfg, ty, p1, payload=p1v)
     rc = 0
